@@ -232,6 +232,46 @@ def check_operand(ctx, c, op, ic, s, bits, pos=None):
 
 
 # ---- seq: len, bool, iteration, indexing ---------------------------------------------------------
+class _IntSub(int):
+    pass
+
+
+class _IndexOnly:
+    """Not an int: implements __index__ (and is registered as numbers.Integral), like numpy's integer scalars."""
+    def __init__(self, v):
+        self.v = v
+
+    def __index__(self):
+        return self.v
+
+    def __int__(self):
+        return self.v
+
+    def __lt__(self, o):
+        return self.v < int(o)
+
+    def __ge__(self, o):
+        return self.v >= int(o)
+
+    def __neg__(self):
+        return _IndexOnly(-self.v)
+
+    def __add__(self, o):
+        return _IndexOnly(self.v + int(o))
+
+    __radd__ = __add__
+
+
+import numbers as _numbers  # noqa: E402
+_numbers.Integral.register(_IndexOnly)
+INDEX_KINDS = [('int-subclass', _IntSub), ('registered-Integral', _IndexOnly)]
+try:
+    import numpy as _np
+    INDEX_KINDS.append(('numpy.int64', _np.int64))
+except Exception:  # noqa: BLE001 - numpy is optional
+    pass
+
+
 def index_class(i: int, L: int) -> str:
     if abs(i) > 10 ** 9:
         return 'huge'
@@ -307,6 +347,23 @@ def judge_seq(ctx, c):
                 ctx.mismatch(f'C01|index|{ic}|{shape}', dict(c, idx=[i]), f's[{i}] -> {got[1]!r} expected {bits[i] == "1"}')
         else:
             check_raises(ctx, dict(c, idx=[i]), 'index', ic, got, 'IndexError', (cn, lb, 'index', ic))
+    # the same indices given as other integer types (an int subclass, a numpy integer, a class that only implements __index__
+    # and is registered as numbers.Integral): an index is an integer whatever its class
+    sample = [i for i in c['idx'] if abs(i) < 10 ** 6][:: max(1, len(c['idx']) // 7)][:8]
+    for i in sample:
+        for kind, wrap in INDEX_KINDS:
+            k = wrap(i)
+            got = call(lambda: s[k])
+            ic = index_class(i, L) + ',' + kind
+            if -L <= i < L:
+                ctx.op('index', got[0] if got[0] == 'ok' else _exc(got))
+                if got[0] == 'ok' and (got[1] is True or got[1] is False) and got[1] == (bits[i] == '1'):
+                    ctx.ok((cn, 'index', kind, index_class(i, L)), True)
+                else:
+                    shape = 'value' if got[0] == 'ok' else 'unexpected-exc:' + _exc(got)
+                    ctx.mismatch(f'C01|index|{ic}|{shape}', dict(c, idx=[i]), f's[{kind}({i})] -> {got[1]!r:.80} expected {bits[i] == "1"}')
+            else:
+                check_raises(ctx, dict(c, idx=[i]), 'index', ic, got, 'IndexError', (cn, 'index', kind, index_class(i, L)))
     check_operand(ctx, c, 'seq', ec, s, bits)
     ctx.state(cn, L, 'seq', len(c['s']) > 2)
 
